@@ -630,24 +630,31 @@ def render(m, refrnd=None, precrnd=None, extra_header=None, scenarios=None, trai
             L.append(i + "  milestone")
         if t["container"] and t.get("alloc"):
             L.append("%s  allocate %s" % (i, ", ".join(t["alloc"])))   # inherited by children without an allocation of their own
+        # scenario-specific values: written behind the plain ones, or (sc_first) in front of them - the order of the
+        # lines inside a task body carries no meaning
+        sc_lines = []
+        for sc, mins in t.get("sc_effort", {}).items():
+            sc_lines.append("%s  %s:effort %dmin" % (i, sc, mins))
+        for sc, v in t.get("sc_start", {}).items():
+            sc_lines.append("%s  %s:start %s" % (i, sc, fmt_dt(v)))
+        for sc, v in t.get("sc_end", {}).items():
+            sc_lines.append("%s  %s:end %s" % (i, sc, fmt_dt(v)))
+        if t.get("sc_first"):
+            L.extend(sc_lines)
         if "effort_min" in t:
             L.append("%s  effort %dmin" % (i, t["effort_min"]))
             a = ", ".join(t["alloc"])
             if t.get("alt"):
                 a += " { alternative " + ", ".join(t["alt"]) + " }"
             L.append("%s  allocate %s" % (i, a))
-        for sc, mins in t.get("sc_effort", {}).items():
-            L.append("%s  %s:effort %dmin" % (i, sc, mins))
         if "priority" in t:
             L.append("%s  priority %d" % (i, t["priority"]))
         if "start" in t:
             L.append("%s  start %s" % (i, fmt_dt(t["start"])))
-        for sc, v in t.get("sc_start", {}).items():
-            L.append("%s  %s:start %s" % (i, sc, fmt_dt(v)))
         if "end" in t:
             L.append("%s  end %s" % (i, fmt_dt(t["end"])))
-        for sc, v in t.get("sc_end", {}).items():
-            L.append("%s  %s:end %s" % (i, sc, fmt_dt(v)))
+        if not t.get("sc_first"):
+            L.extend(sc_lines)
         if t.get("limits"):
             L.append("%s  %s" % (i, limits_text(t["limits"])))
         if t.get("deps"):
